@@ -309,7 +309,9 @@ def run_property(mod, tier: str, seed: int, replay: str | None = None) -> int:
         "evaluations": res.evaluations, "distinct_nontrivial": res.nontrivial,
         "rule": mod.RULE, "samples": res.samples[:3],
         "traces_validated_against_impl": res.traces,
-        "input_distribution": dict(res.stats.most_common(60)),
+        # the 60 most frequent tags, and every stream tag ("kind:..." / "stream:...") however rare its stream is
+        "input_distribution": {**dict(res.stats.most_common(60)),
+                               **{k: v for k, v in res.stats.items() if k.startswith(("kind:", "stream:"))}},
         "exhaustive_subspace_cases": res.exhaustive,
         "model_impl_disagreements": len(disagree), "oracle_failures": len(oracle_found),
         "known_findings_hit": sorted(reported_known),
